@@ -1,5 +1,5 @@
 (** src/lib.rs : derive_input_handler *)
-From Educe.Model Require Export Expand_PartialEq Expand_Eq.
+From Educe.Model Require Export Expand_PartialEq Expand_Eq Expand_Hash.
 
 Definition tmap := list (trait * list meta).
 
@@ -46,7 +46,7 @@ Definition handlers : list (trait * handler) :=
    (TEq, expand_eq);
    (TPartialOrd, not_modelled "PartialOrd");
    (TOrd, not_modelled "Ord");
-   (THash, not_modelled "Hash");
+   (THash, expand_hash);
    (TDefault, not_modelled "Default");
    (TDeref, not_modelled "Deref");
    (TDerefMut, not_modelled "DerefMut")].
